@@ -55,7 +55,7 @@ def slow_calls(res):
     return [e for e in res.log if e["kind"] == "call" and not e["chain"] and re.search(r"alloc_slow_path_(optimistic|pessimistic)$", e["callee"])]
 
 
-@rule("C03-A0", "C03", 4, "free-list pop bodies return Meta{memory_offset: node, ptr_offset: node + 8, ptr_size: size} with size <= the segment's data size", also=("C01", "C04"))
+@rule("C03-A0", "C03", 4, "free-list pop bodies return Meta{memory_offset: node, ptr_offset: node + 8, ptr_size: size} with size <= the segment's data size", also=("C01", ("C02", "sync"), "C04"))
 def a0(ctx):
     for fl in FLAVOURS:
         for name in ("alloc_slow_path_optimistic", "alloc_slow_path_pessimistic"):
@@ -146,7 +146,7 @@ def aligned_meta_obligations(ctx, ev, res, b, want_size_exact, min_size, rid):
     return n
 
 
-@rule("C03-A2", "C03", 18, "alloc::<T>: ptr_size = size_of T, ptr_offset = alignUp(align_of T, .), inside the obtained space, on the bump path and both free-list arms", also=("C01", "C02", "C04"))
+@rule("C03-A2", "C03", 18, "alloc::<T>: ptr_size = size_of T, ptr_offset = alignUp(align_of T, .), inside the obtained space, on the bump path and both free-list arms", also=("C01", ("C02", "sync"), "C04"))
 def a2(ctx):
     for fl in FLAVOURS:
         b = ctx.facts.one(r"^%s::Arena::alloc_in$" % fl)
@@ -179,7 +179,7 @@ def a2p(ctx):
     yield Ob(key_of("C03-A2p", b.path, "aligned-pointer"), ok, "get_aligned_pointer_mut(offset) = raw_mut_ptr + alignUp(align_of T, offset) for offset != 0", b.loc())
 
 
-@rule("C03-A3", "C03", 18, "alloc_aligned_bytes::<T>(n): ptr_offset = alignUp(align_of T, .) and ptr_size >= size_of T + n (equality on fresh space), inside the obtained space", also=("C01", "C02", "C04"))
+@rule("C03-A3", "C03", 18, "alloc_aligned_bytes::<T>(n): ptr_offset = alignUp(align_of T, .) and ptr_size >= size_of T + n (equality on fresh space), inside the obtained space", also=("C01", ("C02", "sync"), "C04"))
 def a3(ctx):
     for fl in FLAVOURS:
         b = ctx.facts.one(r"^%s::Arena::alloc_aligned_bytes_in$" % fl)
